@@ -257,7 +257,10 @@ class Sched:
             if not loop.step():
                 if self._service(0):
                     continue
-                if self.env is not None and self.env.default_action(idle=True):
+                # a helper thread blocked in a call of its own (e.g. an injected stop() waiting for the plan to end) is a
+                # caller too: the environment keeps acting for it (releases the suspension it is waiting behind)
+                blocked = any(h.state == "parked" and not h.timed for h in self.helpers)
+                if self.env is not None and self.env.default_action(idle=not blocked):
                     continue
                 if self.timeout_parked():
                     continue
